@@ -94,7 +94,7 @@ type c01Case struct {
 	shellCfg
 	Comp    bool        `json:"comp"`
 	Multi   bool        `json:"multi"`
-	Editor  string      `json:"editor"` // missing | ok | fail
+	Editor  string      `json:"editor"`          // missing | ok | fail
 	Bound   []string    `json:"bound,omitempty"` // commands without a default binding, bound to C-x C-z a, b, ...
 	Plan    []sess.Step `json:"plan"`
 	Exit    []sess.Step `json:"exit"`
@@ -223,7 +223,6 @@ func limitDigits(plan []sess.Step, max int) []sess.Step {
 	}
 	return plan
 }
-
 
 // ---- directed family: every operator/object/argument at every cursor position of shaped buffers ----
 
